@@ -357,3 +357,13 @@ func VerifJSLitTwin(n int) {
 	out := minifyString([]byte("'a'"), false)
 	vAssert(len(out) == 0, "twin: must fail")
 }
+
+// VerifJSStringWitness: the recorded witnesses of known findings of the string kernel, replayed on every run.
+func VerifJSStringWitness(n int) {
+	body := []string{"\\0007", "\\008", "a\\009"}[vChoice("w", 3)]
+	q := byte('\'')
+	if vBool("dq") {
+		q = '"'
+	}
+	verifStringCheck([]byte(body), q, vBool("tmpl"))
+}
